@@ -53,7 +53,8 @@ UsMatch(k) == /\ k <= Len(q)
 TApi == /\ IsEv("Api")
         /\ IF Ev.ok
              THEN /\ Len(Ev.us) >= 1 /\ UsMatch(Len(Ev.us)) /\ Flush(Len(Ev.us))
-             ELSE /\ Len(Ev.us) >= 1 /\ UsMatch(Len(Ev.us)) /\ FlushFail(Ev.fcls)
+             ELSE /\ Len(Ev.us) >= 1 /\ UsMatch(Len(Ev.us))
+                  /\ IF Ev.o = "applied" THEN FlushFailApplied(Len(Ev.us), Ev.fcls) ELSE FlushFail(Ev.fcls)
         /\ Consume
 
 \* an API call that carries no update (only empty checkpoints were queued): nothing changes for a sequential program
